@@ -67,11 +67,14 @@ def check_hints(ctx: Ctx, case) -> None:
         ctx.fail("tempo-events", f"{len(bpm)} tempo events parsed, {n} written", case)
     n_eval = 0
     # a second chart with another tempo map is alive and answers queries in between (no shared state)
-    shadow = _bpm_events(ctx, {"res": case["res"], "tempo": [[a, b + 1 + b // 3] for a, b in case["tempo"]][:-1]
-                               or [[0, 77777]]})
+    # (every tempo a little faster, so every tick stays inside the time domain)
+    shadow = _bpm_events(ctx, {"res": case["res"], "tempo": [[a, b + 1 + b // 3] for a, b in case["tempo"]]})
     for ti, t in enumerate(case["ticks"]):
         if shadow is not None and ti % 2:
-            shadow.timestamp_at_tick(t)
+            try:
+                shadow.timestamp_at_tick(t)
+            except Exception:  # noqa: BLE001  (the shadow is not under test)
+                pass
         g = tm.governing(t)
         try:
             base_ts, base_idx = bpm.timestamp_at_tick(t)
@@ -89,7 +92,7 @@ def check_hints(ctx: Ctx, case) -> None:
             if shadow is not None and (ti + h) % 5 == 0:
                 try:
                     shadow.timestamp_at_tick(t, start_iteration_index=min(h, len(shadow) - 1))
-                except ValueError:
+                except Exception:  # noqa: BLE001
                     pass
             try:
                 got = bpm.timestamp_at_tick(t, start_iteration_index=h)
